@@ -362,9 +362,13 @@ class StubsStringGenerator:
         all_method_names: set[str] = set()
         for method in methods:
             # Add methods of internal classes that are inherited if the methods themselfe are public
+            # Names like "__call__" are not internal
+            is_internal_method = is_internal(method.name) and not (
+                method.name.startswith("__") and method.name.endswith("__")
+            )
             if (
                 not method.is_public
-                and (not is_internal_class or (is_internal_class and is_internal(method.name)))
+                and (not is_internal_class or (is_internal_class and is_internal_method))
                 or method.name in already_defined_names
             ):
                 continue
